@@ -50,8 +50,8 @@ func (_this *MarkedObjectKeyableRule) OnArrayBegin(ctx *Context, arrayType event
 	ctx.BeginArrayKeyable("marked object (keyable)", arrayType)
 }
 func (_this *MarkedObjectKeyableRule) OnChildContainerEnded(ctx *Context, dataType DataType) {
-	ctx.MarkObject(dataType)
 	ctx.UnstackRule()
+	ctx.MarkObject(dataType)
 	ctx.CurrentEntry.Rule.OnChildContainerEnded(ctx, dataType)
 }
 
@@ -116,7 +116,7 @@ func (_this *MarkedObjectAnyTypeRule) OnArrayBegin(ctx *Context, arrayType event
 	ctx.ParentRule().OnArrayBegin(ctx, arrayType)
 }
 func (_this *MarkedObjectAnyTypeRule) OnChildContainerEnded(ctx *Context, cType DataType) {
-	ctx.MarkObject(cType)
 	ctx.UnstackRule()
+	ctx.MarkObject(cType)
 	ctx.CurrentEntry.Rule.OnChildContainerEnded(ctx, cType)
 }
